@@ -87,16 +87,40 @@ class Obligation:
     def key(self):
         return f"{self.unit}::{self.name}"
 
-    def smt2(self):
+    def smt2(self, qf_only=False):
+        """SMT-LIB text of (path condition and not goal).  With qf_only the
+        quantified conjuncts of the path condition are dropped: proving the goal
+        from fewer hypotheses is still a proof, and such queries are much easier."""
         s = z3.Solver()
         for p in self.pc:
+            if qf_only and _has_quantifier(p):
+                continue
             s.add(p)
         s.add(z3.Not(self.goal))
         return s.to_smt2()
 
+    def has_quantified_pc(self):
+        return any(_has_quantifier(p) for p in self.pc)
+
+
+def _has_quantifier(f):
+    seen = set()
+    todo = [f]
+    while todo:
+        x = todo.pop()
+        if x.get_id() in seen:
+            continue
+        seen.add(x.get_id())
+        if z3.is_quantifier(x):
+            return True
+        todo.extend(x.children())
+    return False
+
 
 class LoopSpec:
-    def __init__(self, inv, havoc=None, kinds=None, modifies=None, decreases=None):
+    def __init__(self, inv, havoc=None, kinds=None, modifies=None, decreases=None, hints=None):
+        self.hints = hints        # (ctx, v) -> [(name, valid formula)]: lemma instances, each
+        #                           proved on its own (empty path condition) before it is assumed
         self.inv = inv            # (ctx, v) -> [(name, formula)]
         self.havoc = havoc        # (ctx, v) -> None ; havocs heap state
         self.kinds = kinds or {}  # local name -> factory(ctx) for havoc
@@ -306,6 +330,14 @@ class Ctx:
         self.assume(f)
 
     line = 0
+
+    def lemma(self, f, name, line=None):
+        """a lemma instance: proved with an EMPTY path condition (it must be a
+        valid formula), then available as a fact on this path"""
+        f = to_z3(f) if not z3.is_expr(f) else f
+        self.obligations.append(Obligation(self.unit.name, name, line or self.line, [], f,
+                                           tuple(self.decisions), "lemma"))
+        self.assume(f)
 
     def feasible(self, f):
         self.solver.push()
@@ -835,7 +867,7 @@ class Interp:
                 raise Unsupported("symbolic range with step")
             lo, hi = to_z3(it.lo), to_z3(it.hi)
             n = z3.If(hi > lo, hi - lo, Z(0))
-            return ("sym", n, lambda i: wrap(lo + i))
+            return ("sym", n, lambda i: wrap(lo + i), {"lo": lo, "hi": hi})
         if isinstance(it, SArr):
             if z3.is_int_value(z3.simplify(it.n)):
                 nn = z3.simplify(it.n).as_long()
@@ -885,6 +917,8 @@ class Interp:
                 extra = {"it": Z(0), "n": live_map.order.n}
             else:
                 extra = {"it": Z(0), "n": seq[1]}
+        rng = dict(seq[3]) if (is_for and len(seq) > 3) else {}
+        extra.update(rng)
         for name, inv in spec.inv(ctx, View(f, extra)):
             ctx.check(inv, f"loop{lidx} invariant on entry: {name}", line, kind="inv-entry")
         # --- havoc
@@ -905,6 +939,7 @@ class Interp:
             ctx.assume(i >= 0)
             ctx.assume(i <= n)
             extra = {"it": i, "n": n}
+            extra.update(rng)
         for name, inv in spec.inv(ctx, View(f, extra)):
             ctx.assume(inv)
         # --- step or exit
@@ -914,6 +949,9 @@ class Interp:
         else:
             guard = self.truth(self.eval(s.test, f))
         if ctx.decide(guard):
+            if spec.hints is not None:
+                for name, h in spec.hints(ctx, View(f, extra)):
+                    ctx.lemma(h, f"loop{lidx} hint (valid on its own): {name}", line)
             if is_for:
                 if live_map is not None:
                     x = wrap(live_map.order.sel(i))
@@ -944,6 +982,7 @@ class Interp:
             ctx.writes = _merge(saved_writes, ctx.writes)
             if is_for:
                 extra2 = {"it": i + 1, "n": n}
+                extra2.update(rng)
             else:
                 extra2 = {}
             for name, inv in spec.inv(ctx, View(f, extra2)):
